@@ -128,9 +128,11 @@ def run(ctx):
         n = rng.randint(1, 4) if rng.random() < 0.75 else rng.randint(5, 9)
         if big:
             n = rng.randint(170, 230)
-        force_share, force_edge0 = fi % 7 == 2, fi % 7 == 4
+        force_share, force_edge0, force_feed = fi % 7 == 2, fi % 7 == 4, fi % 7 in (5, 6)
         if force_share:
             n = max(n, 3)
+        if force_feed and not big:
+            n = max(n, 4)
         small = (rng.random() < (0.7 if ctx.tier == "quick" else 0.8)) and not big and not force_edge0
         sampled = ctx.tier == "quick" and not small and not big
         origs = []
@@ -159,6 +161,8 @@ def run(ctx):
         mode = rng.random() if not big else 0.5
         if force_share and not big:
             mode = 0.1
+        if force_feed and not big:
+            mode = 0.9          # appends and reads interleaved on one object, batches fed by a reading iterable
         if mode < 0.4:
             # a writer that fills one buffer per burst length again and again (a receive loop does):
             # what is stored is the content at the time of the append
@@ -186,7 +190,7 @@ def run(ctx):
         else:
             # histories that interleave appends and reads on the same object; the capture is given as
             # a path or as a file object the caller opened (the constructor takes both)
-            fileobj = rng.random() < 0.4
+            fileobj = rng.random() < 0.4 or (force_feed and fi % 7 == 5)
             if fileobj:
                 del ddf
                 ddf = data_dump.DATADumpFile(open(path, "w+b"))
@@ -198,7 +202,7 @@ def run(ctx):
                     ddf.f.flush()
                     del ddf
                     ddf = data_dump.DATADumpFile(open(path, "r+b") if fileobj else path)
-                nb = rng.randint(2, 3) if (rng.random() < 0.3 and k + 2 <= len(msgs)) else 1
+                nb = rng.randint(2, 3) if ((rng.random() < 0.3 or (force_feed and k >= 1)) and k + 2 <= len(msgs)) else 1
                 batch = msgs[k:k + nb]
                 for m in batch:
                     starts.append(pos)
